@@ -40,7 +40,7 @@ func init() {
 		},
 	}
 	var c03quick, c03all []int
-	for pi := 0; pi < 28; pi++ {
+	for pi := 0; pi < 31; pi++ {
 		c03quick = append(c03quick, pi*8+(pi%4))
 		for ci := 0; ci < 4; ci++ {
 			c03all = append(c03all, pi*8+ci)
@@ -62,8 +62,8 @@ func init() {
 			{Rel: ".", Dir: "fiber", Entry: "VH_C03_rpm", Cases: tierCases(c03quick, c03all), Reach: []string{"ran", "not-ran"}, MaxPaths: 60000},
 		},
 		Bounds: map[string]string{
-			"quick":    "28 delimited patterns (one routing config each, rotating over the 4 CaseSensitive x StrictRouting configs); every parameter value symbolic of length 0..2 (named and + >= 1); 6 patterns also with UnescapePath and one byte of the request path (any position but the first) percent-encoded; RoutePatternMatch vs dispatch on fully symbolic paths of the listed lengths (<= 14)",
-			"thorough": "28 delimited patterns x 4 routing configs, 6 patterns x 4 UnescapePath configs, same value/path bounds",
+			"quick":    "31 delimited patterns (one routing config each, rotating over the 4 CaseSensitive x StrictRouting configs); every parameter value symbolic of length 0..2 (named and + >= 1); 6 patterns also with UnescapePath and one byte of the request path (any position but the first) percent-encoded; RoutePatternMatch vs dispatch on fully symbolic paths of the listed lengths (<= 14)",
+			"thorough": "31 delimited patterns x 4 routing configs, 6 patterns x 4 UnescapePath configs, same value/path bounds",
 		},
 		Assumptions: []string{
 			"values are printable ASCII without '?', '#', '%'; named values without '/'",
@@ -100,7 +100,7 @@ func init() {
 		Runs: []HarnessRun{
 			{Rel: ".", Dir: "fiber", Entry: "VH_C09_sort", Cases: tierCases([]int{2, 3}, []int{2, 3, 4}), Reach: []string{"sorted"}, MaxPaths: 100000},
 			{Rel: ".", Dir: "fiber", Entry: "VH_C09_ranges", Cases: tierCases([]int{1, 2, 3, 4}, []int{1, 2, 3, 4, 5, 6}), Reach: []string{"split"}, MaxPaths: 100000},
-			{Rel: ".", Dir: "fiber", Entry: "VH_C09_offer", Cases: tierCases([]int{0, 1, 4, 8, 9, 12}, []int{0, 1, 4, 5, 8, 9, 12, 13}), Reach: []string{"some", "none"}, MaxPaths: 100000},
+			{Rel: ".", Dir: "fiber", Entry: "VH_C09_offer", Cases: tierCases([]int{0, 1, 4, 8, 9, 12, 17}, []int{0, 1, 4, 5, 8, 9, 12, 13, 16, 17, 18}), Reach: []string{"some", "none"}, MaxPaths: 100000},
 			{Rel: ".", Dir: "fiber", Entry: "VH_C09_format", Cases: tierCases([]int{0, 1, 2, 3}, []int{0, 1, 2, 3}), Reach: []string{"negotiated", "not-acceptable"}, MaxPaths: 100000},
 		},
 		Bounds: map[string]string{
@@ -136,14 +136,14 @@ func init() {
 		},
 	}
 	var c04quick, c04all []int
-	for ti := 0; ti < 9; ti++ {
+	for ti := 0; ti < 10; ti++ {
 		c04quick = append(c04quick, ti*4+(ti%4))
 		for k := 0; k < 4; k++ {
 			c04all = append(c04all, ti*4+k)
 		}
 	}
-	c04quick = append(c04quick, 6*4+1, 6*4+3, 3*4+2, 0*4+3, 2*4+0, 1*4+0, 100+6*4+3, 100+3*4+2, 100+0*4+1)
-	for ti := 0; ti < 9; ti++ {
+	c04quick = append(c04quick, 6*4+1, 6*4+3, 3*4+2, 0*4+3, 2*4+0, 1*4+0, 100+6*4+3, 100+3*4+2, 100+0*4+1, 100+9*4+1, 100+9*4+2)
+	for ti := 0; ti < 10; ti++ {
 		for k := 1; k < 4; k++ {
 			c04all = append(c04all, 100+ti*4+k)
 		}
@@ -154,8 +154,8 @@ func init() {
 			{Rel: ".", Dir: "fiber", Entry: "VH_C04_mount", Cases: tierCases(c04quick, c04all), Reach: []string{"handlers-ran", "nothing-ran"}, MaxPaths: 100000},
 		},
 		Bounds: map[string]string{
-			"quick":    "9 composition trees (mount before/after sibling routes, nested mount, mount from a group, '/' and trailing-slash prefixes, children spelled without a leading slash, parameterised prefix, sub-app '/*', upper-case paths), one routing config each (+4), each built three ways: real mounting, groups, flat full paths; request method from the tree's list, path fully symbolic at the listed lengths (<= 8)",
-			"thorough": "9 trees x 4 routing configs (CaseSensitive x StrictRouting, shared by parent and sub-apps)",
+			"quick":    "10 composition trees (mount before/after sibling routes, nested mount, mount from a group, '/' and trailing-slash prefixes, children spelled without a leading slash, parameterised prefix, sub-app '/*', upper-case paths), one routing config each (+4), each built three ways: real mounting, groups, flat full paths; request method from the tree's list, path fully symbolic at the listed lengths (<= 8)",
+			"thorough": "10 trees x 4 routing configs (CaseSensitive x StrictRouting, shared by parent and sub-apps)",
 		},
 		Assumptions: []string{
 			"sub-apps use either the parent's routing configuration or the default one (cases >= 100); the group world always uses the parent's",
@@ -266,7 +266,8 @@ func init() {
 		Runs: []HarnessRun{
 			{Rel: ".", Dir: "fiber", Entry: "VH_C07_total", Cases: tierCases(rangeInts(0, 13), rangeInts(0, 13)), Reach: []string{"returned"}, MaxPaths: 200000},
 			{Rel: ".", Dir: "fiber", Entry: "VH_C07_inject", Cases: tierCases([]int{0, 1, 2, 3, 4, 5, 6, 7, 8, 9, 10, 11, 13, 14, 15}, []int{0, 1, 2, 3, 4, 5, 6, 7, 8, 9, 10, 11, 13, 14, 15}), Reach: []string{"serialised"}, MaxPaths: 100000},
-			{Rel: ".", Dir: "fiber", Entry: "VH_C07_guard", Cases: seqCases(2), Reach: []string{"handled", "rejected"}, MaxPaths: 100000},
+			{Rel: ".", Dir: "fiber", Entry: "VH_C07_guard", Cases: seqCases(4), Reach: []string{"handled", "rejected"}, MaxPaths: 100000},
+			{Rel: ".", Dir: "fiber", Entry: "VH_C07_path", Cases: tierCases([]int{0, 4, 7}, []int{0, 1, 2, 3, 4, 5, 6, 7}), Reach: []string{"returned"}, MaxPaths: 200000},
 		},
 		Bounds: map[string]string{
 			"quick":    "totality: 13 accessor groups (Accepts*, Range, IPs/IP, Subdomains/Hostname, Fresh, Is, Cookies) on header values of every length 1..3/4/5 (Range, Cache-Control: 8) over the bytes fasthttp admits (decimal digits restricted to 0/1 in Accept*/Range, 7-bit bytes for Host); injection: 15 response-helper sinks with an arbitrary 1..3 byte argument (any byte incl. CR, LF, NUL) serialised by fasthttp's real header writer; entry guard: symbolic method of 1..5 bytes against the default and a custom method set. Allocation of the flash decoder is covered by C12's hostile-cookie harness.",
@@ -283,7 +284,7 @@ func init() {
 		ID: "C13",
 		Runs: []HarnessRun{
 			{Rel: "middleware/limiter", Dir: "limiter", Entry: "VH_C13_sequential", Cases: tierCases([]int{0, 9, 16, 25, 2, 20}, []int{0, 1, 2, 3, 4, 5, 8, 9, 10, 12, 16, 17, 18, 20, 24, 25, 26, 28}), Reach: []string{"admitted", "rejected"}, MaxPaths: 200000, ExtraPkgs: lim},
-			{Rel: "middleware/limiter", Dir: "limiter", Entry: "VH_C13_concurrent", Cases: tierCases([]int{0, 4, 12, 5, 7}, []int{0, 1, 2, 3, 4, 5, 6, 7, 8, 12, 13, 14, 15}), Reach: []string{"joined"}, MaxPaths: 200000, ExtraPkgs: lim, Repeat: 3},
+			{Rel: "middleware/limiter", Dir: "limiter", Entry: "VH_C13_concurrent", Cases: tierCases([]int{0, 4, 12, 5, 7, 13}, []int{0, 1, 2, 3, 4, 5, 6, 7, 8, 12, 13, 14, 15}), Reach: []string{"joined"}, MaxPaths: 200000, ExtraPkgs: lim, Repeat: 10},
 		},
 		Bounds: map[string]string{
 			"quick":    "fixed and sliding window, memory and external (stub) storage, skip options: histories of 3 requests over 2 keys, inter-arrival gaps 0..Expiration+1 s (solver-enumerated), per-request MaxFunc limit symbolic in 1..3, handler outcome symbolic; Expiration 2-3 s; concurrent: 2 requests (3 in thorough) on one key with limit 1..2, every interleaving at lock acquisition / storage / handler boundaries",
@@ -375,7 +376,7 @@ func init() {
 	props["C18"] = PropSpec{
 		ID: "C18",
 		Runs: []HarnessRun{
-			{Rel: "client", Dir: "client", Entry: "VH_C18_jar", Cases: tierCases([]int{1, 2, 12}, []int{1, 2, 3, 12, 13}), Reach: []string{"checked"}, MaxPaths: 400000},
+			{Rel: "client", Dir: "client", Entry: "VH_C18_jar", Cases: tierCases([]int{1, 2, 12, 22}, []int{1, 2, 3, 12, 13, 22, 23, 32}), Reach: []string{"checked"}, MaxPaths: 400000},
 			{Rel: "client", Dir: "client", Entry: "VH_C18_assembly", Cases: seqCases(2), Reach: []string{"assembled"}, MaxPaths: 100000, Repeat: 60},
 			{Rel: "client", Dir: "client", Entry: "VH_C18_handoff", Cases: seqCases(2), Reach: []string{"B-done"}, MaxPaths: 300000, Repeat: 40},
 		},
